@@ -85,7 +85,8 @@ NoTighter(p, c) == /\ p.shares >= c.shares
 (************************* predicates on observations **********************)
 \* an observed value o = [set, v]; what is in force when the hook injects nothing for a container is the
 \* container's own (kubelet) value, which for an undeclared amount is minimum shares / no limit
-Untouched(o)  == ~o.shares.set /\ ~o.quota.set /\ ~o.mem.set
+IsUnset(x)    == ~x.set /\ x.v = 0                \* the recorder writes an absent value as [set |-> FALSE, v |-> 0]
+Untouched(o)  == IsUnset(o.shares) /\ IsUnset(o.quota) /\ IsUnset(o.mem)
 Injected(o, w) == /\ o.shares.set /\ o.shares.v = w.shares
                   /\ o.quota.set  /\ o.quota.v  = w.quota
                   /\ o.mem.set    /\ o.mem.v    = w.mem
